@@ -1261,6 +1261,16 @@ func (r *rw) expr(e ast.Expr) ast.Expr {
 				return x
 			}
 		}
+		// R9: time.Sleep - under the controlled scheduler a sleep is a fair yield (real time is not modelled)
+		if sx, ok := x.Fun.(*ast.SelectorExpr); ok && sx.Sel.Name == "Sleep" && len(x.Args) == 1 {
+			if idn, ok := sx.X.(*ast.Ident); ok {
+				if pn, isPkg := r.info.Uses[idn].(*types.PkgName); isPkg && pn.Imported().Path() == "time" {
+					r.exprs(x.Args)
+					r.nAtomic++ // a loop around a sleep is a waiting loop
+					return r.vs("Sleep", x.Args[0])
+				}
+			}
+		}
 		// R8: sync/atomic - the operation is a scheduling point and a happens-before edge per address
 		if sx, ok := x.Fun.(*ast.SelectorExpr); ok {
 			if idn, ok := sx.X.(*ast.Ident); ok {
